@@ -40,6 +40,7 @@ def gen_case(rng, depth):
         lines.append("EVAL " + g.program())
         lines.append("TICKS")
         lines.append("DUMP a b c")
+        if k == 0: lines.append("INVENTORY diff")
     return lines, g.forms_used
 
 def small_programs(tier):
